@@ -112,6 +112,7 @@ Proof.
   apply td_bool_enc_inj in H; destruct H as [E30 H].
   apply td_bool_enc_inj in H; destruct H as [E31 H].
   apply td_bool_enc_inj in H; destruct H as [E32 H].
+  apply td_bool_enc_inj in H; destruct H as [E33 H].
   clear H. destruct s, t. simpl in *. subst. reflexivity.
 Qed.
 
@@ -236,9 +237,11 @@ Proof. intros fams f c H Hin. rewrite forallb_forall in H. apply H. exact Hin. Q
 
 (* the per-state check, clause by clause *)
 Lemma td_chk_state_split : forall c s, td_chk_state c s = true ->
-  td_chk_dead c s = true /\ td_chk_wac s = true /\ td_chk_chan s = true /\ td_chk_abort s = true /\ td_chk_close2 s = true.
+  td_chk_dead c s = true /\ td_chk_wac s = true /\ td_chk_chan s = true /\ td_chk_abort s = true /\
+  td_chk_close2 s = true /\ td_chk_shut s = true.
 Proof.
-  intros c s H. unfold td_chk_state in H. repeat (apply andb_true_iff in H; destruct H as [H ?]). auto.
+  intros c s H. unfold td_chk_state in H. do 5 (apply andb_true_iff in H; destruct H as [H ?]).
+  repeat split; assumption.
 Qed.
 
 (* ---------------------------------------------------------------- witnesses: following a path of step indices *)
